@@ -43,9 +43,9 @@ def h_buffers(env):
     def sender(src, dst, msg, prio=None, on_error=None):
         seq[0] += 1
         if dst == comp.name:
-            if msg.content in reinjected:
+            if id(msg) in reinjected:
                 rebuffered[0] = True
-            reinjected.add(msg.content)
+            reinjected.add(id(msg))
             queue.append((prio if prio is not None else 20, seq[0], src, msg))
         else:
             outbox.append((dst, msg.content))
@@ -66,7 +66,7 @@ def h_buffers(env):
         # a new message reaches the agent's queue (normal priority); with handle=False the agent thread has
         # not yet picked it up when the next operation (e.g. start) runs
         k[0] += 1
-        m = Message("t", "m%d" % k[0])
+        m = Message("t", "m" if p.get("same_content") else "m%d" % k[0])     # same_content: all messages compare equal
         received.append((src, m.content))
         seq[0] += 1
         queue.append((20, seq[0], src, m))
@@ -100,7 +100,7 @@ def h_buffers(env):
             r = env.call(comp.pause, False)
         elif op == "post":
             k[0] += 1
-            m = Message("t", "p%d" % k[0])
+            m = Message("t", "p" if p.get("same_content") else "p%d" % k[0])
             posted.append(("other", m.content))
             r = env.call(comp.post_msg, "other", m)
         elif op == "start":
@@ -152,7 +152,8 @@ Contract(
                   dict(n=6, ops=["queueA", "step", "start_nodrain", "pause", "resume_nodrain"]),
                   # posts and receptions held in the same pause, a newer message already queued at the resume
                   dict(n=5, prefix=["start"], ops=["recvA", "queueA", "post", "pause", "resume"]),
-                  dict(n=5, prefix=["start", "pause"], ops=["recvA", "recvB", "queueA", "post", "resume_nodrain", "step"])]
+                  dict(n=5, prefix=["start", "pause"], ops=["recvA", "recvB", "queueA", "post", "resume_nodrain", "step"]),
+                  dict(n=5, ops=["recvA", "recvB", "post", "start", "pause", "resume"], same_content=True)]
     + ([dict(n=6), dict(n=7, ops=["recvA", "recvB", "post", "pause", "resume", "start"]), dict(n=7, ops=["recvA", "queueA", "start", "pause", "resume"])] if tier == "thorough" else []),
     mode="E", must_cover=["post"],
     trusted=["agent queue emulated as (priority, FIFO) - the guarantee of C18"],
